@@ -132,4 +132,4 @@ for c in req["cases"]:
     except Exception as e:
         import traceback
         rows.append({"id": c["id"], "error": type(e).__name__ + ": " + str(e)[:300], "tb": traceback.format_exc()[-800:]})
-print(json.dumps({"mode": mode, "rows": rows}))
+print(json.dumps({"mode": mode, "rows": rows}, default=__import__("_util").jdefault))
